@@ -261,3 +261,40 @@ pub fn range_hist(case: &Value, mode: &str, rep: &mut Report) {
         _ => panic!("unknown mode {}", mode),
     }
 }
+
+/// `rdec` cases: a range decoder over arbitrary words (C10 totality; C06 exact state)
+pub fn rdec_case(case: &Value, mode: &str, rep: &mut Report) {
+    let w = case["W"].as_u64().unwrap() as u32; let s = case["S"].as_u64().unwrap() as u32;
+    let data = vec_u128(&case["data"]);
+    let hist = rows(&case["hist"]);
+    let bad = |rep: &mut Report, d: String| rep.mismatch(case, d);
+    macro_rules! g { ($what:expr, $e:expr) => { match guarded(|| $e) { Ok(v) => v, Err(m) => { bad(rep, format!("panic in {}: {}", $what, m)); return; } } } }
+    let mut d = g!("from_compressed", rdec_from_compressed(w, s, &data));
+    for h in &hist {
+        let r = g!("decode_symbol", d.dec(h[0] as usize, &slot_cdf(h[0] as usize, h[1], h[2])));
+        rep.checks += 1;
+        match mode {
+            "c06" => if r != Ok(1) { bad(rep, format!("decoding {:?} over arbitrary data {:?}: slot {:?} gives {:?}, spec 1", hist, data, h, r)); return; },
+            _ => match r { Ok(sy) if sy <= 2 && slot_cdf(h[0] as usize, h[1], h[2])[sy + 1] > slot_cdf(h[0] as usize, h[1], h[2])[sy] => {}, Err(e) if e == "InvalidData" => { rep.class("invalid_data"); return; }, other => { bad(rep, format!("decode over arbitrary data returned {:?}", other)); return; } },
+        }
+    }
+    let invalid: Vec<u64> = case["invalid"].as_array().unwrap().iter().map(|x| x.as_u64().unwrap()).collect();
+    if mode == "c06" {
+        let r = d.raw(); let x = &case["dec"]; rep.checks += 1;
+        if (r.lower, r.range, r.point, r.pos) != (u128_of(&x[0]), u128_of(&x[1]), u128_of(&x[2]), x[3].as_u64().unwrap() as usize) { bad(rep, format!("decoder state over arbitrary data: impl {:?}, spec {}", r, x)); return; }
+    }
+    for prec in 1..=(w as usize) {
+        if case["quantiles"].get(prec.to_string().as_str()).is_none() { continue; }
+        let t = 1u64 << prec;
+        for cdf in [vec![0u64, 1, t], vec![0, t - 1, t], vec![0, t / 2, t]] {
+            if cdf[1] == 0 || cdf[1] == t { continue; }
+            let mut k = d.clone_box(); let before = k.raw();
+            let r = g!("decode_symbol", k.dec(prec, &cdf)); rep.checks += 1;
+            match &r {
+                Ok(sy) => { if *sy > 1 { bad(rep, format!("symbol {} outside the support of {:?}", sy, cdf)); } if mode == "c06" && invalid.contains(&(prec as u64)) { bad(rep, format!("spec reports InvalidData at precision {}, impl decoded {}", prec, sy)); } }
+                Err(e) if e == "InvalidData" => { rep.class("invalid_data"); if k.raw() != before { bad(rep, "InvalidData changed the decoder".into()); } if mode == "c06" && !invalid.contains(&(prec as u64)) { bad(rep, format!("impl reports InvalidData at precision {} where the spec decodes", prec)); } }
+                other => bad(rep, format!("decode over arbitrary data returned {:?}", other)),
+            }
+        }
+    }
+}
